@@ -3,6 +3,7 @@ package main
 // Operators, conversions, slices, maps, strings, type assertions, builtins.
 
 import (
+	"math"
 	"fmt"
 	"go/constant"
 	"go/token"
@@ -173,6 +174,31 @@ func (th *Thread) binop(op token.Token, t types.Type, x, y Value) Value {
 				return mkBool(xv.f > yv.f)
 			case token.GEQ:
 				return mkBool(xv.f >= yv.f)
+			}
+		}
+		// a float known only by its class (finite / +Inf / -Inf / NaN) against
+		// a bound that separates the classes
+		if !xv.known && xv.class != nil && yv.known {
+			cls := func(ids ...uint64) Value {
+				r := tFalse
+				for _, id := range ids {
+					r = mkOr(r, mkEq(xv.class, mkBV(8, id)))
+				}
+				return r
+			}
+			hi := yv.f >= math.MaxFloat64 && !math.IsInf(yv.f, 1) // MaxFloat64 itself
+			lo := yv.f <= -math.MaxFloat64 && !math.IsInf(yv.f, -1)
+			switch {
+			case op == token.LEQ && hi, op == token.LSS && math.IsInf(yv.f, 1):
+				return cls(0, 2)
+			case op == token.GTR && hi, op == token.GEQ && math.IsInf(yv.f, 1):
+				return cls(1)
+			case op == token.GEQ && lo, op == token.GTR && math.IsInf(yv.f, -1):
+				return cls(0, 1)
+			case op == token.LSS && lo, op == token.LEQ && math.IsInf(yv.f, -1):
+				return cls(2)
+			case op == token.LEQ && math.IsInf(yv.f, 1), op == token.GEQ && math.IsInf(yv.f, -1):
+				return cls(0, 1, 2)
 			}
 		}
 	}
